@@ -180,6 +180,76 @@ func runC15(c *run.Ctx) {
 			}
 		})
 	}
+	// large uniform collections: one element (whose untagged nil-able parts may
+	// be nil) repeated up to and beyond typical fast-path sizes, as slice, array
+	// and map values
+	for i := 0; i < c.Pick(900, 20000); i++ {
+		if !c.Mine(i) {
+			continue
+		}
+		r := c.Rng("uniform", i)
+		c.Case(fmt.Sprintf("uniform/%d", i), func() {
+			h := &hostGen{r: r, noIface: i%4 != 0}
+			el := h.shape(1 + r.Intn(2))
+			ev, ee := el.Gen(r, false)
+			if ee == nil {
+				return
+			}
+			n := hostBigSize(r)
+			if r.Intn(4) == 0 {
+				n = []int{1, 2, 31, 32, 33, 63, 64, 65, 66, 129, 513}[r.Intn(11)]
+			}
+			var gv reflect.Value
+			want := &ref.V{}
+			desc := ""
+			switch r.Intn(3) {
+			case 0:
+				gv = reflect.MakeSlice(reflect.SliceOf(el.GoT), n, n)
+				for k := 0; k < n; k++ {
+					gv.Index(k).Set(ev)
+					want.L = append(want.L, ee)
+				}
+				want.T = ref.TList(ee.T)
+				desc = fmt.Sprintf("[]%s x%d", el.Desc, n)
+			case 1:
+				gv = reflect.New(reflect.ArrayOf(n, el.GoT)).Elem()
+				for k := 0; k < n; k++ {
+					gv.Index(k).Set(ev)
+					want.L = append(want.L, ee)
+				}
+				want.T = ref.TList(ee.T)
+				desc = fmt.Sprintf("[%d]%s", n, el.Desc)
+			default:
+				gv = reflect.MakeMap(reflect.MapOf(reflect.TypeOf(0), el.GoT))
+				for k := 0; k < n; k++ {
+					gv.SetMapIndex(reflect.ValueOf(k), ev)
+					want.M = append(want.M, ref.KV{K: ref.VNum(float64(k)), V: ee})
+				}
+				want.T = ref.TMap(ref.TNum, ee.T)
+				desc = fmt.Sprintf("map[int]%s x%d", el.Desc, n)
+			}
+			c.Input(desc)
+			c.Count("uniform_collections", 1)
+			if checkConv(c, desc, gv, want) {
+				// the value as environment entry: compile against it, run on it
+				env := map[string]interface{}{"v": gv.Interface()}
+				if err, p := convGuard(func() error {
+					cl, err := yae.NewExpr().Compile("len(v)", env)
+					if err != nil {
+						return err
+					}
+					out, err := cl(env)
+					if err == nil && out.Num().V != float64(n) {
+						return fmt.Errorf("len(v) = %v", out.Num().V)
+					}
+					return err
+				}); err != nil || p != "" {
+					c.Violation("conv-sample-rejected", fmt.Sprintf("an expression compiled against %s rejects that same value: %v %s", desc, err, p), nil)
+				}
+			}
+			c.Distinct(desc)
+		})
+	}
 	// error classes: an error, neither a panic nor success
 	ec := c15ErrorCases()
 	var names []string
@@ -240,7 +310,7 @@ func runC15(c *run.Ctx) {
 func init() {
 	run.Register(&run.Spec{
 		ID: "C15", Run: runC15, Level: "exploration",
-		Rule: "Go types built by reflection (StructOf / SliceOf / ArrayOf / MapOf / PtrTo / interface{} boxing, depth <= 3): every numeric kind with its extreme values (MaxUint64, 2^63, 2^53+1, MaxFloat32 ...), strings incl. invalid UTF-8, time.Time and pointers to it, structs with renamed / untagged / optional fields (tag spelling variants), nil and non-nil pointers / slices / maps in optional and plain fields, empty and non-empty containers, maps keyed by string / integer kinds / time; " +
+		Rule: "Go types built by reflection (StructOf / SliceOf / ArrayOf / MapOf / PtrTo / interface{} boxing, depth <= 3): every numeric kind with its extreme values (MaxUint64, 2^63, 2^53+1, MaxFloat32 ...), strings incl. invalid UTF-8, time.Time and pointers to it, structs with renamed / untagged / optional fields (tag spelling variants), nil and non-nil pointers / slices / maps in optional and plain fields, empty and non-empty containers (sizes 0-3 and around 8..256, 513), maps keyed by string / integer kinds / time, large uniform slices / arrays / maps of one repeated element whose untagged nil-able parts may be nil; " +
 			"monitor: reference expectation generated together with the value: ValOf succeeds, the result is well-formed (walker), TypeOf(v) == ValOf(v).Type == type dictated by the Go shape, contents equal (numbers as doubles, instants, order, entries, fields under tag names); for interface-free shapes whose nil-able parts are non-nil or optional: two random values get equal types and 'compile against the first, invoke with the second' is accepted (as map entry, struct, pointer to struct); 26 error classes (nil, mixed interface data, nil / non-nil untagged pointers in one slice, unsupported kinds, depth 101 / 150, duplicate field names) must return an error from ValOf / TypeOf / ValEnvOf / TypeEnvOf. distinct = distinct Go type",
 		Assume:    []string{"map keys that collide as doubles are not generated (inherent to 'numbers as doubles')"},
 		MinEvents: 5000, EventKey: "values_converted",
